@@ -359,9 +359,16 @@ def thr4(p, res):
             res.bad("THR-4", fkey, "scratch-origin", "per-thread scratch iterator is %r" % (sc,), site=mid.where(nxt[1]["l"]))
         if not ok:
             continue
-        # chunk = L.div_ceil(T)
+        # chunk = L.div_ceil(T); `max(L.div_ceil(T), 1)` is the same partition (for L > 0 the quotient is >= 1, for L = 0 there is no chunk)
         L = None
+        chunk_as_written = chunk_poly
         atoms = list(chunk_poly.t.items())
+        if len(atoms) == 1 and atoms[0][1] == 1 and len(atoms[0][0]) == 1 and atoms[0][0][0][0] == "f" and atoms[0][0][0][1] == "max" and len(atoms[0][0][0][2]) == 2:
+            x, y = (Poly(dict(k)) for k in atoms[0][0][0][2])
+            for u, v in ((x, y), (y, x)):
+                if v.is_const() and v.const_value() == 1:
+                    chunk_poly = u
+                    atoms = list(chunk_poly.t.items())
         if len(atoms) == 1 and atoms[0][1] == 1 and len(atoms[0][0]) == 1 and atoms[0][0][0][0] == "f" and atoms[0][0][0][1] == "div_ceil":
             a = atoms[0][0][0]
             L = Poly(dict(a[2][0]))
@@ -410,7 +417,7 @@ def thr4(p, res):
             res.bad("THR-4", fkey, "inner-iter", "item loop iterates %r, expected chunk.iter_mut().enumerate()" % (iit,), site=inn.where(inext[0][1]["l"]))
             continue
         lidx = Poly.atom(("call", inn.uid, inext[0][0], ("0", "0")))
-        expected = base + tid * chunk_poly + lidx
+        expected = base + tid * chunk_as_written + lidx
         found = 0
         for b2, t2 in inn.calls():
             for ai, a in enumerate(t2["a"]):
@@ -499,6 +506,113 @@ def thr5(p, res):
     res.floor("THR-5", "single-thread forwarders", n, 14)
 
 
+RANGE_SUFFIX = ("start", "end", "count", "len", "size", "offset")
+
+
+def thr6(p, res):
+    """window arguments keep their role across forwarding calls: a caller's own parameter named `<x>_end` is not passed, unchanged, in the position a callee declares as
+    `<x>_count` / `<x>_len` (nor the other way round) - the partial-preparation wrappers take (bit_start, bit_end) while the trait takes (bit_start, bit_count)"""
+    import re
+    n = 0
+
+    def role(name):
+        m = re.match(r"^(.*)_(%s)$" % "|".join(RANGE_SUFFIX), name or "")
+        return (m.group(1), m.group(2)) if m else None
+    for f in sorted(p.lib_fns(), key=lambda x: x.uid):
+        if f.kind == "Closure" or not f.uid.startswith(("poulpy_bin_fhe", "poulpy_core", "poulpy_ckks")) or not f.blocks:
+            continue
+        pn = f.param_names()
+        mine = {l: role(nm) for l, nm in pn.items() if role(nm) and f.local_ty(l)["s"] == "usize"}
+        if not mine:
+            continue
+        flow = None
+        for bi, t in f.calls():
+            d = f.callee_def(t) or {}
+            if not d.get("u", "").startswith("poulpy_"):
+                continue
+            names = p.decl_args.get(d.get("u"))
+            if not names:
+                tg = [p.fn(u) for u in p.targets(f, t) if p.fn(u) is not None]
+                if tg:
+                    names = [tg[0].param_names().get(i + 1) for i in range(tg[0].argc)]
+            if not names:
+                continue
+            if flow is None:
+                flow = Flow(f)
+            for i, a in enumerate(t["a"]):
+                if i >= len(names) or a[0] not in ("c", "m") or len(a[1]) != 1:
+                    continue
+                rr = flow.op_roots(a)
+                if len(rr) != 1:
+                    continue
+                r = next(iter(rr))
+                if r[0] != "param" or r[2] or r[1] not in mine:
+                    continue
+                theirs = role(names[i])
+                if theirs is None or theirs[0] != mine[r[1]][0]:
+                    continue
+                n += 1
+                if theirs[1] == mine[r[1]][1]:
+                    res.ok("THR-6")
+                else:
+                    res.bad("THR-6", f.pretty, "window-role:%s->%s" % (pn[r[1]], names[i]),
+                            "%s passes its parameter `%s` unchanged where %s declares `%s`: a window given as (start, end) is executed as (start, count)"
+                            % (f.pretty, pn[r[1]], d.get("n"), names[i]), site=f.where(t["l"]))
+    return n
+
+
+def thr7(p, res):
+    """no work item skipped - and no panic - for an empty set of work items: `chunks_mut(c)` panics for c == 0, so a chunk length `items.div_ceil(threads)` is either floored at 1
+    or the empty case is decided before (a comparison of the item count with zero dominating the call)"""
+    n = 0
+    for f in sorted(p.lib_fns(), key=lambda x: x.uid):
+        if f.kind == "Closure" or not f.uid.startswith(("poulpy_bin_fhe", "poulpy_core", "poulpy_ckks")) or not f.blocks:
+            continue
+        bodies = [(f, None)] + [(c, f) for c in p.closures_of(f)]
+        psym = Sym(f, Flow(f))
+        for body, parent in bodies:
+          sites = [(bi, t) for bi, t in body.calls() if (body.callee_def(t) or {}).get("n") in ("chunks_mut", "chunks", "chunks_exact_mut", "chunks_exact") and len(t["a"]) == 2]
+          if not sites:
+            continue
+          if parent is None:
+            sym = psym
+          else:
+            sym = Sym(body, Flow(body), cap_subst=cap_subst_for(f, psym, body.uid))
+          g = CFG(f)
+          for bi0, t in sites:
+            # the empty case has to be decided in the enclosing function, before the closure is created
+            bi = bi0 if parent is None else (closure_creation(f, body.uid) or (0, None))[0]
+            c = sym.operand(t["a"][1])
+            at = list(c.atoms())
+            if not (len(c.t) == 1 and len(at) == 1 and at[0][0] == "f"):
+                continue
+            a = at[0]
+            if a[1] == "max" and any(Poly(dict(k)).is_const() and (Poly(dict(k)).const_value() or 0) >= 1 for k in a[2]):
+                n += 1
+                res.ok("THR-7", {"fn": f.pretty, "chunk": repr(c)})
+                continue
+            if a[1] != "div_ceil":
+                continue
+            n += 1
+            items = Poly(dict(a[2][0]))
+            guarded = False
+            for bj in g.reach:
+                if bj == bi or not g.dominates(bj, bi):
+                    continue
+                for st in f.blocks[bj]["s"]:
+                    if st[0] == "A" and st[2]["k"] == "Bin" and st[2]["op"] in ("Eq", "Ne", "Gt", "Lt", "Ge", "Le"):
+                        x, y = psym.operand(st[2]["o"][0]), psym.operand(st[2]["o"][1])
+                        for u, v in ((x, y), (y, x)):
+                            if v.is_const() and (v.const_value() or 0) == 0 and (set(u.atoms()) & set(items.atoms())):
+                                guarded = True
+            if guarded:
+                res.ok("THR-7", {"fn": f.pretty, "chunk": repr(c), "empty_case": "decided before"})
+            else:
+                res.bad("THR-7", f.pretty, "zero-chunk",
+                        "%s chunks its work items by `%r`, which is 0 for an empty set of items: slice::chunks_mut(0) panics instead of doing nothing" % (f.pretty, c), site=f.where(t["l"]))
+    return n
+
+
 def run(res, tier):
     res.level = "other"
     res.explanation = ("Non-interference argument decided structurally: (THR-1) the library has no shared mutable state, (THR-2) the backend handle behind "
@@ -510,6 +624,8 @@ def run(res, tier):
     res.rule("THR-2", "pointers returned by Module::ptr/as_mut_ptr are only used as `&*p`")
     res.rule("THR-3", "no unsafe in poulpy-bin-fhe; Scratch::split_mut carves n windows of len bytes via split_at_mut only")
     res.rule("THR-4", "exact partition: chunk = items.div_ceil(threads), scratches = split_mut(threads, per).0, loop = enumerate(zip(scratches.iter_mut(), items[lo..hi].chunks_mut(chunk))), index = lo + thread*chunk + local")
+    res.rule("THR-6", "a parameter named <x>_end / <x>_count / <x>_start ... forwarded unchanged lands in a callee parameter of the same role")
+    res.rule("THR-7", "a chunk length items.div_ceil(threads) handed to chunks_mut is floored at 1, or the empty case is decided before")
     res.rule("THR-5", "X forwards to X_multi_thread with threads = 1 and its own parameters in order")
     res.assumptions = ["rustc's borrow checker (safe code cannot alias the chunks / scratch windows)", "std::thread::scope joins all threads before returning",
                        "per-item determinism: C11 (no stale output) and C12/SC-3 (scratch contents never read) decide that a work item is a function of its inputs"]
@@ -523,3 +639,7 @@ def run(res, tier):
         thr3(p, res)
         thr4(p, res)
         thr5(p, res)
+        n7 = thr7(p, res)
+        res.floor("THR-7", "chunked work partitions", n7, 2)
+        n6 = thr6(p, res)
+        res.floor("THR-6", "window arguments forwarded by name", n6, 4)
